@@ -201,6 +201,28 @@ func extractDriver() string {
 	b.WriteString("def genCmdWritesOnlyAfterCheck : Bool := " + lbool(genWritesAfterCheck) + "\n")
 	b.WriteString("def checkCmdExitsOnError : Bool := " + lbool(checkExit) + "\n")
 	b.WriteString(fmt.Sprintf("def checkCmdWriteCalls : Nat := %d\n", checkWrites))
+	// printFileErr: how a diagnostic's file name, line and column reach the output
+	nameExpr, format, fargs := "missing", "missing", "missing"
+	if pf := findFunc(f, "printFileErr"); pf == nil || len(pf.Body.List) != 2 {
+		untr("cmd.printFileErr: not two statements (name := …; Fprintf)")
+	} else {
+		if as, ok := pf.Body.List[0].(*ast.AssignStmt); ok && len(as.Lhs) == 1 && len(as.Rhs) == 1 {
+			nameExpr = exprString(as.Lhs[0]) + " := " + exprString(as.Rhs[0])
+		}
+		if es, ok := pf.Body.List[1].(*ast.ExprStmt); ok {
+			if call, ok := es.X.(*ast.CallExpr); ok && exprString(call.Fun) == "fmt.Fprintf" && len(call.Args) >= 2 {
+				format = exprString(call.Args[1])
+				var as []string
+				for _, a := range call.Args[2:] {
+					as = append(as, exprString(a))
+				}
+				fargs = strings.Join(as, ", ")
+			}
+		}
+	}
+	b.WriteString("def printFileErrName : String := " + lstr(nameExpr) + "\n")
+	b.WriteString("def printFileErrFormat : String := " + lstr(format) + "\n")
+	b.WriteString("def printFileErrArgs : String := " + lstr(fargs) + "\n")
 	b.WriteString("end Sqlc.Gen\n")
 	return b.String()
 }
